@@ -1,4 +1,4 @@
 From Coq Require Import Extraction ExtrOcamlBasic ZArith List.
-From LP Require Import Num C03_Model.
+From LP Require Import Num C03_Model C03_Model2.
 Extraction Language OCaml.
-Extraction "C03_m.ml" asr integrate find_epsilon integrate_default integrate_method run_call step run_seq run_call_ab step_ab run_seq_ab reentrant Z.of_nat Z.to_nat.
+Extraction "C03_m.ml" asr integrate find_epsilon integrate_default integrate_method run_call step run_seq run_call_ab step_ab run_seq_ab reentrant check_limits result_diag integrate_report integrate_named integrate_2d integrate_3d Z.of_nat Z.to_nat.
